@@ -120,6 +120,13 @@ pub fn run_dsc(buf: &[u8]) -> Vec<u64> {
     obs_desc_items(DescriptorIter::<CoreDescriptors<'_>>::new(buf), buf, &mut v);
     v
 }
+/// `Descriptor::from_bytes` on a slice whose first descriptor is complete and which goes on behind it: "the descriptor at
+/// the start of the given slice"; encoded like a one-item loop
+pub fn run_dsc1(buf: &[u8]) -> Vec<u64> {
+    let mut v = vec![];
+    obs_desc_items(std::iter::once(<CoreDescriptors<'_> as mpeg2ts_reader::descriptor::Descriptor>::from_bytes(buf)), buf, &mut v);
+    v
+}
 pub fn run_pat(body: &[u8]) -> Vec<u64> {
     let mut v = vec![];
     let s = PatSection::new(body);
